@@ -193,6 +193,7 @@ Definition fassign (a : nat → bool) : nat → bool := fun k => a (o2nf o2n k).
 Record LInv (j : nat) (s : st) (umap : gmap Z Z) : Prop := {
   li_inv : Inv s;
   li_off : last_len s = None;
+  li_mx : max_nodes s = None;
   li_nv : nvars s = n;
   li_sound : ∀ u x, umap !! Z.pos u = Some x →
      is_Some (alist_get tbl u) ∧ valid s x ∧ nlvl u ≤ lvl_of s x ∧
@@ -214,9 +215,9 @@ Proof.
 Qed.
 
 Lemma LInv_extends j s s' umap : LInv j s umap → Inv s' → extends s s' →
-  last_len s' = None → LInv j s' umap.
+  last_len s' = None → max_nodes s' = None → LInv j s' umap.
 Proof.
-  intros HL HI' He Hoff. pose proof (li_inv _ _ _ HL) as HI. split; try done.
+  intros HL HI' He Hoff Hmx. pose proof (li_inv _ _ _ HL) as HI. split; try done.
   - rewrite (extends_nvars s s') by done. apply HL.
   - intros u x Hx. destruct (li_sound _ _ _ HL _ _ Hx) as (?&?&?&HD).
     split_and!; [done|by apply (valid_extends s s')|by rewrite (lvl_extends s s')|].
@@ -265,12 +266,14 @@ Proof.
   destruct (find_or_add j p q s) as [rr s1] eqn:Efa.
   pose proof Efa as Efa'. apply find_or_add_spec in Efa' as (HI1&He1&Hf1&Hr); try done.
   destruct rr as [x|e]; cycle 1.
-  { exfalso. destruct Hr as (_&[? Hs]&_). rewrite (li_off _ _ _ HL) in Hs. done. }
+  { exfalso. exact (benign_never s e (li_off _ _ _ HL) (li_mx _ _ _ HL) (proj1 Hr)). }
   rewrite (bind_ok _ _ _ _ _ Efa). cbn [ret]. intros [= <- <-].
   destruct Hr as (Hvx&Hlx&HDx).
   assert (Hoff1 : last_len s1 = None).
   { destruct Hf1 as (E&_). rewrite E. apply HL. }
-  pose proof (LInv_extends _ _ _ _ HL HI1 He1 Hoff1) as HL1.
+  assert (Hmx1 : max_nodes s1 = None).
+  { rewrite (frame_max_nodes _ _ Hf1). apply HL. }
+  pose proof (LInv_extends _ _ _ _ HL HI1 He1 Hoff1 Hmx1) as HL1.
   exists (<[Z.pos u := x]> umap). split; [done|]. split_and!; try done.
   - split; try apply HL1.
     + intros u' x' Hx'. destruct (decide (u' = u)) as [->|Hne].
@@ -345,10 +348,10 @@ Proof.
     exists umap'. split_and!; try done. by etrans.
 Qed.
 
-Lemma LInv_start s : Inv s → last_len s = None → nvars s = n →
+Lemma LInv_start s : Inv s → last_len s = None → max_nodes s = None → nvars s = n →
   LInv n s ({[ (-1)%Z := (-1)%Z; 1%Z := 1%Z ]} : gmap Z Z).
 Proof.
-  intros HI Hoff Hnv. destruct (wf_term Hwf) as [kT HT]. split; try done.
+  intros HI Hoff Hmx Hnv. destruct (wf_term Hwf) as [kT HT]. split; try done.
   - intros u x Hx. destruct (decide (u = 1%positive)) as [->|Hne]; cycle 1.
     { rewrite lookup_insert_ne, lookup_singleton_ne in Hx by congruence. done. }
     rewrite lookup_insert_ne, lookup_singleton in Hx by done. injection Hx as <-.
@@ -395,7 +398,7 @@ Qed.
 
 (** ** The rebuild: correct for every well-formed table *)
 Theorem dddmp_rebuild_correct rootids s0 r s' :
-  Inv s0 → last_len s0 = None → nvars s0 = n →
+  Inv s0 → last_len s0 = None → max_nodes s0 = None → nvars s0 = n →
   (∀ u, u ∈ rootids → fvalid u) →
   dddmp_rebuild tbl o2n n rootids s0 = (r, s') →
   r = Ok tt ∧ Inv s' ∧ extends s0 s' ∧
@@ -403,7 +406,7 @@ Theorem dddmp_rebuild_correct rootids s0 r s' :
     Forall2 (fun u x => valid s' x ∧
        ∀ a fuel, n < fuel → D s' x a = fden fuel tbl u (fassign a)) rootids rs.
 Proof.
-  intros HI Hoff Hnv Hroots. unfold dddmp_rebuild.
+  intros HI Hoff Hmx Hnv Hroots. unfold dddmp_rebuild.
   destruct (foldM (fun (umap : gmap Z Z) j => foldM (dddmp_node_step o2n j) umap tbl)
               ({[ (-1)%Z := (-1)%Z; 1%Z := 1%Z ]} : gmap Z Z) (reverse (seq 0 n)) s0)
     as [r1 s1] eqn:E1.
@@ -519,7 +522,7 @@ Qed.
 Lemma dl_init_levels (levels : list (nat * nat)) :
   NoDup (levels.*1) → NoDup (levels.*2) → levels.*2 ≡ₚ seq 0 (length levels) →
   ∃ s', init_levels levels init = (Ok tt, s') ∧ Inv s' ∧ last_len s' = None ∧
-        vars s' = list_to_map levels ∧ nvars s' = length levels.
+        max_nodes s' = None ∧ vars s' = list_to_map levels ∧ nvars s' = length levels.
 Proof.
   intros Hn1 Hn2 Hperm. unfold init_levels.
   assert (Hvo : valid_ordering levels = true).
@@ -538,7 +541,7 @@ Proof.
   assert (HI : Inv s1).
   { apply dl_fresh_Inv; [done|]. intros l. rewrite Hnv, <- elem_of_dom, El.
     rewrite elem_of_list_to_set, elem_of_seq. lia. }
-  destruct Hfr as (E1&_). split_and!; done.
+  pose proof (frame_max_nodes _ _ Hfr) as Emx. destruct Hfr as (E1&_). split_and!; done.
 Qed.
 
 (** ** Python dicts built from pairs with distinct keys *)
@@ -779,7 +782,7 @@ Proof.
   cbv zeta. rewrite (new_levels_eq L HL1 HL2).
   destruct (old2new_run L HL1 HL2 empty_st) as (O&EO&HOd&HO1&HO2).
   rewrite (bind_ok _ _ _ _ _ EO). cbn [bind modify]. rewrite HOd.
-  destruct (dl_init_levels (cNL L)) as (s0&E0&HI0&Hoff0&Hv0&Hnv0).
+  destruct (dl_init_levels (cNL L)) as (s0&E0&HI0&Hoff0&Hmx0&Hv0&Hnv0).
   { apply (cNL_fst_nodup L HL1 HL2). }
   { rewrite (cNL_snd L). apply NoDup_seq. }
   { rewrite (cNL_snd L), (cNL_length L). done. }
